@@ -115,8 +115,8 @@ PROPS["C19"] = {
     "claim": "explicit-state model checking of the one-variable generator: all 2^31-2 states of the cycle are visited (256 arcs joined by modular-exponentiation jump-ahead, closure checked); in each state the successor equals 16807*s mod (2^31-1) (64-bit arithmetic) and, for every maxv of the tier's list, the returned value equals the RFC expression, lies in 0..maxv-1 and equals the exact floor whenever s'*maxv < 2^53; seeding accepts exactly 1..2^31-2 on the enumerated windows; the 10000th state after seed 1 is 1043618065",
     "technique": "exhaustive explicit-state enumeration of the generator's full cycle (2^31-2 states) against the reference transition function",
     "rule": "states = values of of_seed visited (full cycle); transitions = library calls compared (states x maxv list); every state is distinct by construction",
-    "bounds": {"quick": "all 2^31-2 states x 19 maxv values {1,2,3,5,255,256,1000,65535,65536,2^20, and nine values above 2^22 up to 12750000}", "thorough": "all states x 120 maxv values (all <=64, 2^e and 2^e+-1 up to 2^24, 150000, 12749999, 12750000)"},
-    "assumptions": ["'all maxv x all states' (2.7e16) is out of reach: the maxv list is explicit", "reference transition: 64-bit (s*16807) % (2^31-1); exact floor by 128-bit integer arithmetic"],
+    "bounds": {"quick": "all 2^31-2 states x 19 maxv values {1,2,3,5,255,256,1000,65535,65536,2^20, and nine values above 2^22 up to 12750000}; every maxv in 1..2^20 x a band of 4099 states (first and last 2048 of the cycle from seed 1, 2^31-2, 2^30, 2^30+1)", "thorough": "all states x 120 maxv values (all <=64, 2^e and 2^e+-1 up to 2^24, 150000, 12749999, 12750000); every maxv in 1..2^22 x the band"},
+    "assumptions": ["'all maxv x all states' (2.7e16) is out of reach: two explicit products instead (all states x a maxv list, all maxv the library can pass x a band of states)", "reference transition: 64-bit (s*16807) % (2^31-1); exact floor by 128-bit integer arithmetic"],
     "runs": [{"name": "prng", "src": "h_prng.c", "variant": "plain"}],
 }
 
